@@ -220,6 +220,9 @@ class Gen:
                 ps.append(("t", self.prose() + r.choice([" ", ", ", ". ", ""])))
             elif k < 0.85 or not allow_ic:
                 ps.append(self.display(ints))
+                if r.random() < 0.25:          # two interpolations separated by blanks only
+                    ps.append(("t", r.choice([" ", "  "])))
+                    ps.append(self.display(ints))
             elif self.p("inline_cond"):
                 self.count("inline_cond")
                 cond = self.bool_expr(0, ints) if not self.p("faults") else r.choice(["nope > 1", "xs[99]"])
